@@ -230,7 +230,7 @@ func main() {
 		}
 		// closure: contracts assumed while verifying must themselves be verified for this property
 		for n := range r.assumed {
-			if c2 := C.ByName[n]; c2 != nil && !done[n] && !c2.NoBody && (*flagFn == "" || prop != "") {
+			if c2 := C.ByName[n]; c2 != nil && !done[n] && !c2.NoBody && (*flagFn == "" || prop != "") && (prop == "" || contractMentions(c2, prop)) {
 				if fn := eng.fns[n]; fn != nil && fn.Blocks != nil {
 					work = append(work, c2)
 				}
